@@ -16,7 +16,11 @@ Inductive cell :=
 | CNull                      (* array.is_null(row) *)
 | CStr (s : list Z)          (* Utf8 value *)
 | CInt (n : Z)               (* Int64 value *)
-| CFloat (txt : list Z).     (* Float64 value, given by the text `f64::to_string` prints (std, trusted) *)
+| CFloat (txt : list Z)      (* Float64 value, given by the text `f64::to_string` prints (std, trusted) *)
+| CBool (b : bool)           (* Boolean value *)
+| COther (txt : list Z).     (* a value of any other type (Date, Timestamp, Binary, List, FixedSizeList, Struct, Map,
+                                Decimal, ...), given by the text format_display_value returns for it: the CSV and
+                                JSON writers only ever look at that text *)
 
 Record table := mkTable { t_cols : list (list Z); t_rows : list (list cell) }.
 
@@ -46,6 +50,8 @@ Definition cell_text (c : cell) : list Z :=
   | CStr s => s
   | CInt n => int_dec n
   | CFloat txt => txt
+  | CBool b => if b then [116; 114; 117; 101] else [102; 97; 108; 115; 101]
+  | COther txt => txt
   end.
 
 (* ------------------------------------------------------------------ *)
@@ -60,7 +66,8 @@ Definition csv_dq (v : list Z) : list Z := flat_map (fun b => if b =? 34 then [3
 Definition csv_quote (v : list Z) : list Z :=
   if csv_needs_quote v then 34 :: csv_dq v ++ [34] else v.
 
-(* format_csv_value: NULL is the empty string *)
+(* format_csv_value: NULL is the empty string; EVERY other cell, whatever its type, goes through the
+   quoting scan on its display text *)
 Definition csv_field (c : cell) : list Z :=
   match c with
   | CNull => []
@@ -130,6 +137,8 @@ Definition json_value (c : cell) : list Z :=
   | CStr s => json_string s
   | CInt n => int_dec n
   | CFloat txt => if float_nonfinite txt then [110; 117; 108; 108] else txt
+  | CBool b => if b then [116; 114; 117; 101] else [102; 97; 108; 115; 101]
+  | COther txt => json_string txt        (* `_ =>` arm: DQUOTE json_escape(display text) DQUOTE *)
   end.
 
 (* write!(writer, DQUOTE {} DQUOTE COLON SPACE {}, json_escape(field_name), value) *)
@@ -155,6 +164,8 @@ Definition json_value_before_fix (c : cell) : list Z :=
   | CStr s => json_string_before_fix s
   | CInt n => int_dec n
   | CFloat txt => txt
+  | CBool b => if b then [116; 114; 117; 101] else [102; 97; 108; 115; 101]
+  | COther txt => 34 :: txt ++ [34]
   end.
 Definition json_member_before_fix (hc : list Z * cell) : list Z :=
   34 :: fst hc ++ [34; 58; 32] ++ json_value_before_fix (snd hc).
@@ -499,6 +510,8 @@ Definition jval_of (c : cell) : jval :=
   | CStr s => JStr s
   | CInt n => JNum (int_dec n)
   | CFloat txt => if float_nonfinite txt then JNull else JNum txt
+  | CBool b => if b then JTrue else JFalse
+  | COther txt => JStr txt
   end.
 Definition json_expected (t : table) : list jobj :=
   map (fun r => combine (t_cols t) (map jval_of r)) (t_rows t).
@@ -540,6 +553,8 @@ Definition cell_typed (c : cell) : bool :=
   | CStr s => bytes_ok s
   | CInt n => (-9223372036854775808 <=? n) && (n <=? 9223372036854775807)
   | CFloat txt => float_nonfinite txt || json_number_ok txt
+  | CBool _ => true
+  | COther txt => bytes_ok txt
   end.
 Definition table_typed (t : table) : bool :=
   forallb bytes_ok (t_cols t) && forallb (forallb cell_typed) (t_rows t).
